@@ -9,6 +9,7 @@ import (
 	"os"
 	"sort"
 	"sync"
+	"sync/atomic"
 
 	"verifharness/internal/rng"
 	"verifharness/internal/spec"
@@ -65,7 +66,13 @@ type Ctx struct {
 	curSub    string
 	curCase   int
 	maxSample int
+	stop      int32
 }
+
+// Stop makes Cases skip all remaining cases (used after a verdict that leaves the process unusable, e.g. a deadlock).
+func (c *Ctx) Stop() { atomic.StoreInt32(&c.stop, 1) }
+
+func (c *Ctx) Stopped() bool { return atomic.LoadInt32(&c.stop) == 1 }
 
 func NewCtx(prop, tier string, seed uint64, shard, nshards int, workdir string) *Ctx {
 	c := &Ctx{Prop: prop, Tier: tier, Seed: seed, Shard: shard, NShards: nshards, Only: -1, WorkDir: workdir,
@@ -104,6 +111,9 @@ func (c *Ctx) Cases(sub string, n int, pinned bool, f func(i int, r *rng.R)) {
 		seed = 0
 	}
 	for i := 0; i < n; i++ {
+		if c.Stopped() {
+			return
+		}
 		if c.Only >= 0 {
 			if c.OnlySub != sub || c.Only != i {
 				continue
